@@ -3,7 +3,7 @@
 (a) Every combination of converter x URI x binding direction x VALUES placement x predicate is evaluated on the graph
 directly, through Flask GET and POST and through FastAPI GET (in-process clients); after the query sweep the live
 converter gains a URI-prefix synonym and the service is queried again (observe - mutate - observe).
-(b) Every Accept header of 1..3 elements over 10 media types x 5 q-values (one with two decimals) x all placements of optional whitespace is fed
+(b) Every Accept header of 1..3 elements over 10 media types x 6 q-values (one with two decimals, one 1.0) x all placements of optional whitespace is fed
 to handle_header and compared with a reference negotiation written per RFC 7231; a subset goes through the web clients.
 """
 
@@ -24,6 +24,7 @@ CONVERTERS = [
     [mrec("solo", "http://solo/")],
     [mrec("m", "http://long/common/m/", ["mm"], ["http://long/common/m#", "urn:m:"]), mrec("n", "http://long/common/n/", [], ["http://long/common/"])],
     [mrec("gr", "http://p/α/", [], ["http://é.example/ß_", "http://id/gr/"]), mrec("zh", "http://中/")],   # valid IRIs beyond ASCII
+    [mrec("", "http://default/", ["dflt"], ["http://default2#"]), mrec("o", "http://other/")],             # the empty (default) CURIE prefix
 ]
 OWL_SAMEAS = "http://www.w3.org/2002/07/owl#sameAs"
 OTHER_PRED = "http://www.w3.org/2000/01/rdf-schema#seeAlso"
@@ -33,7 +34,7 @@ INVALID = set('<>" {}|\\^`')
 def uris_for(model):
     out = []
     for u in sorted(model.all_uri_prefixes()):
-        out += [u + "1", u, u + "x/y", u[:-1]]
+        out += [u + "1", u, u + "x/y", u[:-1], u + "a%3Ab", u + "%20z%25"]   # the last two: percent-encoded octets stay as they are
     out += ["http://nope/1", "urn:zzz"]
     seen, res = set(), []
     for u in out:
@@ -171,7 +172,10 @@ def check_after_mutation(ci, ctx=None):
         u = r0.uri_prefix + "7"
         # observe first (plants whatever the service may cache) ...
         for t in ("graph", "flask-get"):
-            ask(ci, t, sparql(u, "s", "inside", OWL_SAMEAS), "o")
+            try:
+                ask(ci, t, sparql(u, "s", "inside", OWL_SAMEAS), "o")
+            except Exception as e:  # noqa
+                return [(f"sparql/{t}/raises", f"converter {ci}: {type(e).__name__}: {str(e)[:100]}")]
         # ... mutate the live converter ...
         conv.add_prefix(r0.prefix, new, merge=True)
         from ..impl import model_of
@@ -192,7 +196,7 @@ def check_after_mutation(ci, ctx=None):
 SUPPORTED = ["application/sparql-results+json", "application/sparql-results+xml", "application/sparql-results+csv"]
 SYN = {"application/json": SUPPORTED[0], "text/json": SUPPORTED[0], "application/xml": SUPPORTED[1], "text/xml": SUPPORTED[1], "text/csv": SUPPORTED[2]}
 TYPES = SUPPORTED + list(SYN) + ["text/html", "*/*"]
-QS = [None, "0.1", "0.5", "0.55", "0.9"]
+QS = [None, "0.1", "0.5", "0.55", "0.9", "1.0"]
 DEFAULT = SUPPORTED[1]
 
 
@@ -424,8 +428,8 @@ def replay(case):
 def describe(tier):
     return {
         "level": "model_checking",
-        "rule": "(a) 5 converters (non-ASCII IRIs, nested URI prefixes, URI synonyms nested inside other records' prefixes, CURIE synonyms) x every URI prefix "
-        "followed by '1', '', 'x/y' and shortened by one character + 2 unrecognised URIs x ?s/?o bound x VALUES inside/after WHERE (plain, with a FILTER, with DISTINCT) x "
+        "rule": "(a) 6 converters (empty CURIE prefix, non-ASCII IRIs, nested URI prefixes, URI synonyms nested inside other records' prefixes, CURIE synonyms) x every URI prefix "
+        "followed by '1', '', 'x/y', two percent-encoded identifiers, and shortened by one character + 2 unrecognised URIs x ?s/?o bound x VALUES inside/after WHERE (plain, with a FILTER, with DISTINCT) x "
         "{owl:sameAs, other predicate} x {graph, Flask GET, Flask POST, FastAPI GET}; then twice: query, add a URI synonym to the live "
         "converter, query again; graphs configured with 6 explicit predicate sets x 3 queried predicates; (b) all Accept headers of 1..3 distinct media types from 3 supported + 5 synonyms + text/html + */* x q in "
         "{absent,0.1,0.5,0.9} x 8 optional-whitespace placements; 1/3 of the 2-element headers also through both web frameworks; "
